@@ -71,13 +71,12 @@ pub fn deserialize_eps_zero<'a, T: ZeroCopy>(
     backend: &mut SliceWithPos<'a>,
 ) -> deser::Result<&'a T> {
     let bytes = core::mem::size_of::<T>();
-    if bytes == 0 {
-        // SAFETY: T is zero-sized and `assume_init` is safe.
-        #[allow(invalid_value)]
-        #[allow(clippy::uninit_assumed_init)]
-        return Ok(unsafe { MaybeUninit::uninit().assume_init() });
-    }
+    // The serializer pads also before zero-sized types.
     backend.align::<T>()?;
+    if bytes == 0 {
+        // SAFETY: T is zero-sized and the pointer is non-null and aligned.
+        return Ok(unsafe { &*(backend.data.as_ptr() as *const T) });
+    }
     let (pre, data, after) = unsafe { backend.data[..bytes].align_to::<T>() };
     debug_assert!(pre.is_empty());
     debug_assert!(after.is_empty());
